@@ -45,6 +45,38 @@ def shape_runs(rid, entry, shapes, quick, **kw):
                        defs=d))
     return rs
 
+ES = [1, 2, 3, 4, 5, 8]
+def per_e(rid, entry, quick_es, unwind, es=ES, **kw):
+    rs = []
+    for e in es:
+        d = {'XV_E': e}; d.update(kw.get('defs', {}))
+        k = dict(kw); k.pop('defs', None)
+        rs.append(dict(k, id='%s_e%d' % (rid, e), entry=entry, tiers=['quick', 'thorough'] if e in quick_es else ['thorough'],
+                       defs=d, unwindset=unwind(e)))
+    return rs
+def per_er(rid, entry, quick, unwind, shapes, **kw):
+    rs = []
+    for (e, r) in shapes:
+        rs.append(dict(kw, id='%s_e%d_r%d' % (rid, e, r), entry=entry, tiers=['quick', 'thorough'] if (e, r) in quick else ['thorough'],
+                       defs={'XV_E': e, 'XV_R': r}, unwindset=unwind(e, r)))
+    return rs
+ER = [(e, r) for e in ES for r in (0, 1, 2)]
+RUNS = (
+  per_e('node_ctor', 'h_node_ctor', ES, lambda e: ['ram_node_ctor.0:%d' % (e + 1)], cls='shape-complete')
+  + per_e('node_dtor', 'h_node_dtor', ES, lambda e: ['ram_node_dtor.0:%d' % (e + 3 + 2)], cls='shape-complete', defs={'XV_DTOR_BOUNDED': 1, 'XV_OV': 3},
+          note='pop_idx, push_idx up to 3 tickets beyond max_idx (three threads hit the full / drained node)')
+  + per_e('node_dtor_any', 'h_node_dtor', ES, lambda e: ['ram_node_dtor.0:%d' % (e + 2)], cls='shape-complete', unwind_obligation='ram.node_dtor.owned_only',
+          note='pop_idx, push_idx any multiples of step_size below 2^27*step_size; ~node must finish within entries_per_node iterations')
+  + per_e('ctor', 'h_ctor', [1, 4], lambda e: ['ram_node_ctor.0:%d' % (e + 1)], cls='shape-complete')
+  + per_e('dtor', 'h_dtor', [1, 4], lambda e: ['ram_dtor.0:5'], cls='shape-complete', note='list of 1..3 nodes plus unlisted nodes')
+  + per_e('push', 'h_push', ES, lambda e: ['ram_push.0:%d' % (e + 4), 'ram_node_ctor.0:%d' % (e + 1), 'ram_node_dtor.0:%d' % (e + 2)], cls='shape-complete')
+  + per_er('pop', 'h_pop', ER, lambda e, r: ['ram_pop.0:%d' % (3 * e + 5), 'ram_pop.1:%d' % (r + 2)], ER, cls='shape-complete')
+  + per_e('try_pop', 'h_try_pop', [4], lambda e: [], es=[4], cls='unbounded')
+  + per_e('push_int', 'h_push_int', ES, lambda e: ['ram_node_ctor.0:%d' % (e + 1), 'ram_node_dtor.0:%d' % (e + 2)], mode='INT', cls='shape-complete')
+  + per_er('pop_int', 'h_pop_int', ER, lambda e, r: ['ram_pop_cut.0:%d' % (r + 2)], ER, mode='INT', cls='shape-complete')
+  + per_e('push_rollback', 'h_push_rollback', ES, lambda e: ['ram_push.0:%d' % (2 * e + 5), 'ram_node_ctor.0:%d' % (e + 1), 'ram_node_dtor.0:%d' % (e + 2)], mode='INT', cls='shape-complete')
+)
+
 UNIT = dict(
   title='ramalhete_queue: index map, node ctor/dtor, push, pop, try_pop, queue ctor/dtor (C04, C07)',
   properties=['C04', 'C07'],
@@ -88,7 +120,7 @@ UNIT = dict(
          self_calls={'pop': 'XV_POP'}, subst=COMMON['subst'] + [(r'\bresult\b', '(*result_p)', 'result_ref')],
          must_fire={'self_call:pop': 1, 'method:has_value': 1, 'method:value': 1, 'subst:result_ref': 1}),
   ],
-  runs=idx_runs(),
+  runs=idx_runs() + RUNS,
   obligations={
     'ram.idx.injective': dict(deciding=True, text='the ticket->entry map k -> (k*step_size) mod entries_per_node used by push, pop and ~node is injective on [0, entries_per_node) and stays in bounds'),
   },
